@@ -136,11 +136,21 @@ def run_case(rec, case):
         want_cid_env = uuid5(uuid5(DNS, other), cls)
         expect = "rejected"
     elif scenario == "pair-for-two-roles":
-        role2 = r.choice([x for x in CONFIGURABLE + ["APP_LOCAL_2", "RAD_LOCAL_2"] if x != role])
-        lines += [f'SB_CONFIG_SUIT_MPI_{L.KCONFIG_INFIX[role2]}_VENDOR_NAME="{vendor}"',
-                  f'SB_CONFIG_SUIT_MPI_{L.KCONFIG_INFIX[role2]}_CLASS_NAME="{cls}"']
+        pool = [x for x in CONFIGURABLE + ["APP_LOCAL_2", "RAD_LOCAL_2", "APP_RECOVERY"] if x != role]
+        role2 = r.choice(pool)
+        blocks = [lines, [f'SB_CONFIG_SUIT_MPI_{L.KCONFIG_INFIX[role2]}_VENDOR_NAME="{vendor}"',
+                          f'SB_CONFIG_SUIT_MPI_{L.KCONFIG_INFIX[role2]}_CLASS_NAME="{cls}"']]
+        # further roles with OTHER pairs, anywhere between / around the two colliding entries
+        for role3 in r.sample([x for x in pool if x != role2], r.randrange(0, 3)):
+            blocks.insert(r.randrange(0, len(blocks) + 1),
+                          [f'SB_CONFIG_SUIT_MPI_{L.KCONFIG_INFIX[role3]}_VENDOR_NAME="other-{role3}.example"',
+                           f'SB_CONFIG_SUIT_MPI_{L.KCONFIG_INFIX[role3]}_CLASS_NAME="cls_{role3}"'])
         if r.random() < 0.5:
-            lines = lines[2:] + lines[:2]
+            blocks.reverse()
+        lines = [ln for b in blocks for ln in b]
+        if r.random() < 0.3:
+            # all VENDOR_NAME lines first, then the CLASS_NAME lines (order inside a Kconfig file is free)
+            lines = [ln for ln in lines if "VENDOR_NAME" in ln] + [ln for ln in lines if "CLASS_NAME" in ln]
         expect = "rejected"
     elif scenario == "override-default":
         # the pair is the default pair of ANOTHER role: the assignment must move exactly that pair to `role`
